@@ -50,6 +50,8 @@ func muxErrno(fid uint32) uint32 { return 200 + fid%97 }
 
 type muxServer struct {
 	refuse bool // a third of the Tgetattr are refused (errnos must reach their own callers)
+	// refuseAll: every Tgetattr is refused: many Rlerror back to back, each with its own errno
+	refuseAll bool
 	c      net.Conn
 	bound  map[uint32]bool
 	reuse  []string
@@ -87,7 +89,7 @@ func (s *muxServer) reply(t byte, tag uint16, body []byte) []byte {
 		return rawFrame(121, tag, nil)
 	case 24:
 		fid := binary.LittleEndian.Uint32(body)
-		if s.refuse && fid%3 == 1 {
+		if s.refuse && (s.refuseAll || fid%3 == 1) {
 			// refused with an errno that identifies the request
 			return rawFrame(7, tag, le32(muxErrno(fid)))
 		}
@@ -108,6 +110,7 @@ func runKmux(r *rng, n int) {
 		faultAt := r.intn(batch)
 		a, b := connPair()
 		srv := &muxServer{c: b, bound: map[uint32]bool{}, refuse: r.chance(1, 2)}
+		srv.refuseAll = srv.refuse && r.chance(1, 2)
 		// handshake + attach + one clone per worker, answered in lock-step
 		done := make(chan struct{})
 		var files []p9.File
@@ -230,7 +233,7 @@ func runKmux(r *rng, n int) {
 		foreign, errs, oks, wrongerr := 0, 0, 0, 0
 		for _, res := range results {
 			switch {
-			case res.err != nil && srv.refuse && res.fid%3 == 1 && fault == "none":
+			case res.err != nil && srv.refuse && (srv.refuseAll || res.fid%3 == 1) && fault == "none":
 				// refused by the server: the caller must see the errno sent for *its* request
 				var e linux.Errno
 				if !errors.As(res.err, &e) || uint32(e) != muxErrno(uint32(res.fid)) {
